@@ -565,6 +565,31 @@ pub fn typed_probe(r: &crate::gen::Rendered, t: &mut Tape, st: &mut Stats) -> Re
             }
         }
     }
+    // a value cloned out of a parsed document keeps its spans but no source text travels with it:
+    // the error is located by key path, as for any input without text
+    if let (Some(Seg::Key(k0)), Ok(im)) = (path.first(), toml_edit::ImDocument::parse(text.as_str())) {
+        if let Some(toml_edit::Item::Value(v)) = im.as_table().get(k0) {
+            use serde::de::IntoDeserializer;
+            let rest = &path[1..];
+            st.class("typed.detached-value");
+            match (Walker { rest, actual, modes }).deserialize(v.clone().into_deserializer()) {
+                Ok(()) => return Err(Failure::new("typed", "from a detached Value: wrong type accepted".to_string(), case())),
+                Err(e) => {
+                    let rendered = e.to_string();
+                    if rendered.trim().is_empty() || e.message().trim().is_empty() {
+                        return Err(Failure::new("typed-message", "from a detached Value: empty message".to_string(), case()));
+                    }
+                    let keys: Vec<&str> = rest.iter().filter_map(|s| if let Seg::Key(k) = s { Some(k.as_str()) } else { None }).collect();
+                    if !keys.is_empty() {
+                        let want = format!("in `{}`\n", keys.join("."));
+                        if !rendered.ends_with(&want) {
+                            return Err(Failure::new("typed-keypath", format!("error from a Value cloned out of a document (spans, but no source text) renders {rendered:?}; expected it to end with {want:?}\n---\n{text}\n---"), case()));
+                        }
+                    }
+                }
+            }
+        }
+    }
     if r.text.chars().any(|c| c.len_utf8() > 1) {
         st.nontrivial(fnv64(format!("{text}{}", path_str(&path)).as_bytes()));
     }
@@ -574,7 +599,7 @@ pub fn typed_probe(r: &crate::gen::Rendered, t: &mut Tape, st: &mut Stats) -> Re
 
 pub fn run(args: Args) -> ! {
     let mut rep = Report::new("C15", args.tier, args.seed);
-    rep.rule = "rejected inputs: labelled faults (optionally behind multi-byte characters), nesting beyond the recursion limit in every combination, stray multi-byte characters, truncations, byte/line mutants of generated documents; exhaustive truncation of every fixture at every byte; for each error of DocumentMut, ImDocument, toml::from_str and toml_edit::de::from_str: non-empty message, span inside the document on char boundaries, rendering does not panic, `line L, column C` equals an independent character-based computation from span.start, echoed line is that line. Typed errors: a seed type walks to a chosen path of a valid document and asks for the wrong type there, each node on the way asked for plainly or through deserialize_option / deserialize_newtype_struct / deserialize_struct as chosen by the tape; with text the span must equal the offending item's source range (by construction), without text the rendering ends with the key path. non-trivial = error position not 0 and (multi-byte character before it on the line or at end of input); distinct by text".into();
+    rep.rule = "rejected inputs: labelled faults (optionally behind multi-byte characters), nesting beyond the recursion limit in every combination, stray multi-byte characters, truncations, byte/line mutants of generated documents; exhaustive truncation of every fixture at every byte; for each error of DocumentMut, ImDocument, toml::from_str and toml_edit::de::from_str: non-empty message, span inside the document on char boundaries, rendering does not panic, `line L, column C` equals an independent character-based computation from span.start, echoed line is that line. Typed errors: a seed type walks to a chosen path of a valid document and asks for the wrong type there, each node on the way asked for plainly or through deserialize_option / deserialize_newtype_struct / deserialize_struct as chosen by the tape; with text the span must equal the offending item's source range (by construction), without text (a DocumentMut, or a Value cloned out of a parsed document) the rendering ends with the key path. non-trivial = error position not 0 and (multi-byte character before it on the line or at end of input); distinct by text".into();
     rep.assumptions = vec!["the expected line/column follows the wording of the property (characters, LF-separated lines, final LF part of the last line)".into()];
     KNOWN_F3.store(rep.is_known("F3"), std::sync::atomic::Ordering::Relaxed);
     KNOWN_F14.store(rep.is_known("F14"), std::sync::atomic::Ordering::Relaxed);
